@@ -27,7 +27,9 @@ OPS = {
     "static": ("staticmethod", lambda o: o.static()),
     "static0": ("staticmethod", lambda o: (o.static0(5), type(o).static0(6))),     # inherited, takes an argument
     "classm0": ("classmethod", lambda o: (o.classm0(), type(o).classm0())),
-    "apub": ("function", lambda o: _run_co(o.apub())),                             # an `async def` public method
+    "apub": ("function", lambda o: _run_co(o.apub())),
+    "alias_pub": ("function", lambda o: o.alias_pub()),               # `alias_pub = pub` in the class body
+    "__radd__": ("function", lambda o: 1 + o),                        # `__radd__ = __add__`                             # an `async def` public method
     "classm": ("classmethod", lambda o: o.classm()),
     "__setattr__": ("function", lambda o: setattr(o, "y", 2)),
     "assign": ("assign", lambda o: setattr(o, "z", 3)),          # attribute assignment without own __setattr__
@@ -56,6 +58,8 @@ SRC = {
     "static0": "@staticmethod\ndef static0(v): return v",
     "classm0": "@classmethod\ndef classm0(cls): return 1",
     "apub": "async def apub(self): return 1",
+    "alias_pub": "def _al_impl_pub(self): return 1\nalias_pub = _al_impl_pub\nalias_pub.__name__ = 'al_impl_pub'",
+    "__radd__": "def __add__(self, other): return 5\n__radd__ = __add__",
     "classm": "@classmethod\ndef classm(cls): return 1",
     "__setattr__": "def __setattr__(self, k, v): object.__setattr__(self, k, v)",
     "assign": "",
@@ -85,6 +89,9 @@ def run(case):
     inv_ids = []
     for li, lv in enumerate(case["levels"]):
         base = ("icontract.DBC" if lv["mode"] == "dbc" else "object") if li == 0 else "L%d" % (li - 1)
+        if li == 0 and case.get("builtin_base"):
+            # a subclass of a built-in container / exception that relies on the C-level constructor
+            base = case["builtin_base"] + (", icontract.DBC" if lv["mode"] == "dbc" else "")
         decos = []
         for call, sa in lv["invs"]:
             co = []
